@@ -325,7 +325,6 @@ impl<'a> GeneratorState<'a> {
                         self.asm(ROR, &ExprType::Nothing, pos, false)?;
                         self.asm(STA, left, pos, false)?;
                     }
-                    self.flags = FlagsState::Unknown;
                 } else if let Operation::Bls(_) = op {
                     self.asm(ASL, left, pos, false)?;
                     self.asm(ROL, left, pos, true)?;
@@ -340,6 +339,8 @@ impl<'a> GeneratorState<'a> {
                 }
             }
             if self.acc_in_use { self.sasm(PLA)?; }
+            // The flags are those of the last shift, whatever they described before
+            self.flags = FlagsState::Unknown;
             self.carry_flag_ok = false;
             Ok(ExprType::Nothing)
         } else {
